@@ -1029,3 +1029,16 @@ package app
 //@   assert_at Get#1 wrap.GetMasterHostFromDcs.key [C06,C09,C05]: callarg0 == pathMasterNode
 //@   ensures wrap.GetMasterHostFromDcs.error [C06,C09,C05]: resultof("Get", 1) != nil && !errIs(resultof("Get", 1), dcs.ErrNotFound) ==> result1 != nil && result0 == ""
 //@   ensures wrap.GetMasterHostFromDcs.ok [C06,C09,C05]: resultof("Get", 1) == nil || errIs(resultof("Get", 1), dcs.ErrNotFound) ==> result1 == nil
+// ---- the observation function: which answer of the server ends up in which field of the collected state -----------------
+//@ func (*app.App).getNodeState
+//@   ensures obs.cascade [C16]: result.IsCascade == resultof("IsCascadeHost", 1)
+//@ func (*app.App).getNodeState$1
+//@   requires c20 [safety]: nodeState != nil && node != nil
+//@   requires blank: nodeState != nil ==> nodeState.SlaveState == nil && nodeState.MasterState == nil && nodeState.SemiSyncState == nil && !nodeState.IsMaster
+//@   ensures obs.ping [C05,C04,C10]: nodeState.PingOk == resultof("Ping", 1, 0)
+//@   ensures obs.readonly [C10,C18,C08]: reached("IsReadOnly", 1) && resultof("IsReadOnly", 1, 2) == nil ==> nodeState.IsReadOnly == resultof("IsReadOnly", 1, 0) && nodeState.IsSuperReadOnly == resultof("IsReadOnly", 1, 1)
+//@   ensures obs.offline [C17]: reached("IsOffline", 1) && resultof("IsOffline", 1, 1) == nil ==> nodeState.IsOffline == resultof("IsOffline", 1, 0)
+//@   ensures obs.role [C04,C05,C10,C16]: reached("GetReplicationSettings", 1) && resultof("GetReplicationSettings", 1, 1) == nil ==> (nodeState.IsMaster <==> resultof("GetReplicaStatus", 1, 0) == nil) && (nodeState.SlaveState != nil <==> resultof("GetReplicaStatus", 1, 0) != nil)
+//@   ensures obs.master_gtid [C04,C11,C16]: reached("GTIDExecuted", 1) && resultof("GTIDExecuted", 1, 1) == nil ==> nodeState.MasterState != nil && nodeState.MasterState.ExecutedGtidSet == resultof("GTIDExecuted", 1, 0).ExecutedGtidSet
+//@   ensures obs.semisync [C04]: result == nil ==> nodeState.SemiSyncState != nil && (nodeState.SemiSyncState.MasterEnabled <==> resultof("SemiSyncStatus", 1, 0).MasterEnabled > 0) && (nodeState.SemiSyncState.SlaveEnabled <==> resultof("SemiSyncStatus", 1, 0).SlaveEnabled > 0) && nodeState.SemiSyncState.WaitSlaveCount == resultof("SemiSyncStatus", 1, 0).WaitSlaveCount
+//@   ensures obs.error_means_incomplete [C04,C05]: result == nil ==> reached("SemiSyncStatus", 1) && resultof("SemiSyncStatus", 1, 1) == nil && nodeState.PingOk
